@@ -508,7 +508,7 @@ def oracle_c05(d, case):
             # dependants that use THIS copy: tests of the worker owning the location, or tests that are told to fetch from
             # it (the location is among their sources and its scope is enabled), running now or starting later
             owner = event["loc"].split(":", 1)[0]
-            relevant = []
+            relevant, shared_running = [], []
             for e in d.execs:
                 for r in e["req"]:
                     if (r["obj"], r["state"]) != key:
@@ -519,9 +519,21 @@ def oracle_c05(d, case):
                     if running and e["w"] != owner and not uses_copy:
                         # a test of another worker fetched its copy when it started: it is done with this one
                         counters["removals_during_foreign_run_after_fetch"] += 1
+                        if owner in d.workers and e["scope"][0] != "worker" and \
+                                scope_of(d.workers[owner], " ".join(r["pool_scope"]), d.workers[owner]["spawner"]) == e["scope"]:
+                            # ... but both workers share this state (one reuse scope): the state is being removed while a
+                            # dependant on a worker that took part in using it is still running
+                            shared_running.append(e)
                         continue
                     if uses_copy and (running or pending):
                         relevant.append((e, "running" if running else "pending"))
+            if shared_running and not relevant:
+                counters["removals_while_dependant_of_same_scope_runs_elsewhere"] += 1
+                e = shared_running[0]
+                parsing = "up-front parsing" if case.get("eager") else "lazy parsing"
+                findings.append((f"state removed by one worker while a dependant on another worker of the same reuse scope was running ({parsing})",
+                                 f"{key} removed at {event['loc']} t={event['t']} by {event.get('w')} while {e['cls']} runs on {e['w']} "
+                                 f"({e['t0']}..{e['t1']}), scope {e['scope']}"))
             if relevant:
                 e, when = relevant[0]
                 same_worker = e["w"] == owner
